@@ -25,23 +25,39 @@ Definition cur_oacct (m : st) (a : N) : option acct :=
 Definition acct_view (x : option acct) : N * Z * val :=
   match x with Some y => (ac_nonce y, ac_bal y, ac_ch y) | None => (0, 0%Z, None) end.
 
+(** contract code: the code hash of the flushed record, the code a load yields, the current code *)
+Definition och (o : obj) : val := match o_orig o with Some x => ac_ch x | None => None end.
+Definition fl_ch (m : st) (a : N) : val := match fl_acct m a with Some x => ac_ch x | None => None end.
+Definition load_code (m : st) (a : N) : val := match load_obj m a with Some o => o_dcode o | None => None end.
+Definition cur_code (m : st) (a : N) : bytes :=
+  nb (match aget a (s_objs m) with Some o => o_dcode o | None => load_code m a end).
+
+(* the environment (hash functions) is an implicit argument resolved from the context *)
+Existing Class env.
+Section WithEnv.
+Context {e : env}.
+
 (** * structural invariants of the in-block layer and of the cache *)
 Record ObjOk (m : st) (a : N) (o : obj) : Prop := {
   ok_nd : NoDup (map fst (o_dst o));
   ok_org : forall k v, kget k (o_ost o) = Some v -> nb v = fl_st m a k;     (* origin = flushed value *)
   ok_dho : forall k v, kget k (o_dst o) = Some v -> kget k (o_ost o) <> None;   (* dirty => origin loaded *)
   ok_oa : o_orig o = fl_acct m a;
-  ok_code : o_ocode o = None /\ o_dcode o = None /\
-            (forall x, o_orig o = Some x -> ac_ch x = None) /\ (forall x, o_dirty o = Some x -> ac_ch x = None)
+  ok_oc : o_ocode o = cached_code m a;                       (* the loaded code is the flushed code *)
+  (* either no code was written (the dirty record carries the loaded hash), or the dirty record
+     carries the hash of the dirty code *)
+  ok_cd : (o_dcode o = o_ocode o /\ forall d, o_dirty o = Some d -> ac_ch d = och o) \/
+          (exists d, o_dirty o = Some d /\ ac_ch d = Some (e_kec e (nb (o_dcode o))) /\
+                     (o_dcode o = None -> cached_code m a = None))
 }.
 
 Record Inv (m : st) : Prop := {
   inv_nd_objs : NoDup (map fst (s_objs m));
   inv_objs : forall a o, aget a (s_objs m) = Some o -> ObjOk m a o;
-  inv_dcode : d_code (s_db m) = [];
-  inv_ccode : c_code (s_cache m) = [];
-  inv_dacct : forall a x, aget a (d_acct (s_db m)) = Some x -> ac_ch x = None;
-  inv_cacct : forall a x, aget a (c_acct (s_cache m)) = Some x -> ac_ch x = None
+  (* an account without a code hash has no code; a code hash is the hash of the stored code *)
+  inv_t1 : forall a, ch_nonempty (fl_ch m a) = false -> cached_code m a = None;
+  inv_k1 : forall a, ch_nonempty (fl_ch m a) = true -> fl_ch m a = Some (e_kec e (nb (cached_code m a)));
+  inv_cc : forall a v, aget a (c_code (s_cache m)) = Some v -> v = db_code m a
 }.
 
 (** the cache agrees with the store (no flush pending) *)
@@ -95,6 +111,21 @@ Proof.
   destruct (aget a' (s_objs m)); reflexivity.
 Qed.
 
+Lemma load_code_frame m m' : s_db m' = s_db m -> s_cache m' = s_cache m -> forall a, load_code m' a = load_code m a.
+Proof.
+  intros Hd Hc a. unfold load_code, load_obj, cached_code, db_code. rewrite Hd, Hc.
+  destruct (aget a (c_acct (s_cache m))) as [x|]; [reflexivity|].
+  destruct (aget a (d_acct (s_db m))); reflexivity.
+Qed.
+
+Lemma cur_code_put_obj m a o a' :
+  cur_code (put_obj m a o) a' = if a' =? a then nb (o_dcode o) else cur_code m a'.
+Proof.
+  unfold cur_code. rewrite put_obj_objs. destruct (a' =? a); [reflexivity|].
+  destruct (aget a' (s_objs m)); [reflexivity|].
+  rewrite (load_code_frame m (put_obj m a o)); reflexivity.
+Qed.
+
 Lemma put_obj_NoDup m a o : NoDup (map fst (s_objs m)) -> NoDup (map fst (s_objs (put_obj m a o))).
 Proof. intro H. unfold put_obj, set_objs. cbn [s_objs]. exact (aset_NoDup N.eqb N_eqb_spec a o _ H). Qed.
 
@@ -113,15 +144,22 @@ Proof.
   - apply got_created; assumption.
 Qed.
 
-(** a freshly loaded object when no account has a code hash *)
-Lemma load_obj_nocode m a o : Inv m -> load_obj m a = Some o ->
-  o = mkObj (fl_acct m a) None [] [] None None (s_gen m) /\ fl_acct m a <> None.
+(** a freshly loaded object: its code is the flushed code *)
+Lemma load_obj_shape m a o : Inv m -> load_obj m a = Some o ->
+  o = mkObj (fl_acct m a) None [] [] (cached_code m a) (cached_code m a) (s_gen m) /\ fl_acct m a <> None.
 Proof.
-  intros NC. unfold load_obj, fl_acct.
+  intros I. pose proof (inv_t1 m I a) as T1. unfold fl_ch, fl_acct in T1. unfold load_obj, fl_acct.
   destruct (aget a (c_acct (s_cache m))) as [x|] eqn:Ec.
-  - rewrite (inv_cacct m NC a x Ec). simpl. intro H. inversion H. split; [reflexivity | discriminate].
+  - destruct (ch_nonempty (ac_ch x)) eqn:Ech.
+    + intro H. inversion H. split; [reflexivity | discriminate].
+    + rewrite (T1 eq_refl). intro H. inversion H. split; [reflexivity | discriminate].
   - destruct (aget a (d_acct (s_db m))) as [x|] eqn:Ed; [| discriminate].
-    rewrite (inv_dacct m NC a x Ed). simpl. intro H. inversion H. split; [reflexivity | discriminate].
+    assert (Hdb : cached_code m a = db_code m a).
+    { unfold cached_code. destruct (aget a (c_code (s_cache m))) as [v|] eqn:Ev; [| reflexivity].
+      exact (inv_cc m I a v Ev). }
+    destruct (ch_nonempty (ac_ch x)) eqn:Ech.
+    + rewrite Hdb. intro H. inversion H. split; [reflexivity | discriminate].
+    + rewrite (T1 eq_refl). intro H. inversion H. split; [reflexivity | discriminate].
 Qed.
 
 Lemma load_obj_none m a : load_obj m a = None -> fl_acct m a = None.
@@ -130,11 +168,23 @@ Proof.
   destruct (aget a (d_acct (s_db m))); [discriminate | reflexivity].
 Qed.
 
+Lemma load_code_cached m a : Inv m -> load_code m a = cached_code m a.
+Proof.
+  intro I. unfold load_code. destruct (load_obj m a) as [o|] eqn:L.
+  - destruct (load_obj_shape m a o I L) as [-> _]. reflexivity.
+  - pose proof (load_obj_none m a L) as Hn. symmetry. apply (inv_t1 m I a). unfold fl_ch. rewrite Hn. reflexivity.
+Qed.
+
+Lemma cached_code_frame m m' : s_db m' = s_db m -> s_cache m' = s_cache m -> forall a, cached_code m' a = cached_code m a.
+Proof. intros Hd Hc a. unfold cached_code, db_code. rewrite Hd, Hc. reflexivity. Qed.
+
 Lemma ObjOk_frame m m' a o : s_db m' = s_db m -> s_cache m' = s_cache m -> ObjOk m a o -> ObjOk m' a o.
 Proof.
-  intros Hd Hc [H1 H2 H3 H4 H5]. constructor; try assumption.
+  intros Hd Hc [H1 H2 H3 H4 H5 H6]. constructor; try assumption.
   - intros k v Hk. rewrite (fl_st_frame m m' Hd Hc). apply H2. exact Hk.
   - rewrite (fl_acct_frame m m' Hd Hc). exact H4.
+  - rewrite (cached_code_frame m m' Hd Hc). exact H5.
+  - rewrite (cached_code_frame m m' Hd Hc). exact H6.
 Qed.
 
 Lemma Inv_put_obj m a o : Inv m -> ObjOk m a o -> Inv (put_obj m a o).
@@ -146,27 +196,23 @@ Proof.
     + apply (ObjOk_frame m); [reflexivity | reflexivity |]. apply (inv_objs m I). exact Hg.
 Qed.
 
-Lemma ObjOk_fresh m a : ObjOk m a (mkObj (fl_acct m a) None [] [] None None (s_gen m)) <->
-  (forall x, fl_acct m a = Some x -> ac_ch x = None).
+Lemma ObjOk_fresh m a : ObjOk m a (mkObj (fl_acct m a) None [] [] (cached_code m a) (cached_code m a) (s_gen m)).
 Proof.
-  split.
-  - intros [_ _ _ _ [_ [_ [H _]]]]. exact H.
-  - intro H. constructor; simpl; try (intros; discriminate); try constructor; try reflexivity.
-    split; [reflexivity|]. split; [exact H | intros; discriminate].
-Qed.
-
-Lemma fl_acct_ch_none m a x : Inv m -> fl_acct m a = Some x -> ac_ch x = None.
-Proof.
-  intros I. unfold fl_acct. destruct (aget a (c_acct (s_cache m))) as [y|] eqn:E.
-  - intro H. inversion H; subst. eapply inv_cacct; eassumption.
-  - intro H. eapply inv_dacct; eassumption.
+  constructor; simpl; try (intros; discriminate); try constructor; try reflexivity.
+  split; [reflexivity | intros; discriminate].
 Qed.
 
 (** [Inv] only looks at the store, the cache and the account objects *)
 Lemma Inv_frame m m' : s_db m' = s_db m -> s_cache m' = s_cache m -> s_objs m' = s_objs m -> Inv m -> Inv m'.
 Proof.
-  intros Hd Hc Ho [J1 J2 J3 J4 J5 J6]. constructor; rewrite ?Hd, ?Hc, ?Ho; try assumption.
-  intros a o Hg. apply (ObjOk_frame m m' a o Hd Hc). apply J2. exact Hg.
+  intros Hd Hc Ho [J1 J2 J3 J4 J5].
+  assert (Hfc : forall a, fl_ch m' a = fl_ch m a) by (intro a; unfold fl_ch; rewrite (fl_acct_frame m m' Hd Hc); reflexivity).
+  constructor.
+  - rewrite Ho. exact J1.
+  - intros a o Hg. rewrite Ho in Hg. apply (ObjOk_frame m m' a o Hd Hc). apply J2. exact Hg.
+  - intros a. rewrite Hfc, (cached_code_frame m m' Hd Hc). apply J3.
+  - intros a. rewrite Hfc, (cached_code_frame m m' Hd Hc). apply J4.
+  - intros a v. unfold db_code. rewrite Hc, Hd. apply J5.
 Qed.
 
 (** what [get_obj] guarantees *)
@@ -177,6 +223,7 @@ Record got_ok (m : st) (a : N) (m1 : st) (o : obj) : Prop := {
   go_cache : s_cache m1 = s_cache m;
   go_cur_st : forall a' k, cur_st m1 a' k = cur_st m a' k;
   go_cur_ac : forall a', cur_oacct m1 a' = cur_oacct m a';
+  go_cur_code : forall a', cur_code m1 a' = cur_code m a';
   go_rest : s_pend m1 = s_pend m /\ s_prev m1 = s_prev m /\ s_min m1 = s_min m /\ s_max m1 = s_max m /\
             s_next m1 = s_next m /\ s_revs m1 = s_revs m /\ s_gen m1 = s_gen m;
   go_chg : s_chg m1 = s_chg m \/ (s_chg m1 = ChCreate a :: s_chg m /\ aget a (s_objs m) = None /\ fl_acct m a = None)
@@ -188,9 +235,9 @@ Proof.
   - apply Build_got_ok; try reflexivity; try assumption.
     + repeat split.
     + left. reflexivity.
-  - destruct (load_obj_nocode m a o I Hl) as [-> Hne].
+  - pose proof Hl as Hl0. destruct (load_obj_shape m a o I Hl) as [-> Hne].
     apply Build_got_ok.
-    + apply Inv_put_obj; [exact I|]. apply ObjOk_fresh. intros x Hx. eapply fl_acct_ch_none; eassumption.
+    + apply Inv_put_obj; [exact I|]. apply ObjOk_fresh.
     + rewrite put_obj_objs, N.eqb_refl. reflexivity.
     + reflexivity.
     + reflexivity.
@@ -198,13 +245,17 @@ Proof.
       apply N.eqb_eq in E. subst. unfold cur_st. rewrite Ha. reflexivity.
     + intros a'. rewrite cur_oacct_put_obj. destruct (a' =? a) eqn:E; [| reflexivity].
       apply N.eqb_eq in E. subst. unfold cur_oacct. rewrite Ha. reflexivity.
+    + intros a'. rewrite cur_code_put_obj. destruct (a' =? a) eqn:E; [| reflexivity].
+      apply N.eqb_eq in E. subst. unfold cur_code, load_code. rewrite Ha, Hl0. reflexivity.
     + repeat split.
     + left. reflexivity.
   - pose proof (load_obj_none m a Hl) as Hn.
-    assert (Hnew : new_obj m = mkObj (fl_acct m a) None [] [] None None (s_gen m)) by (rewrite Hn; reflexivity).
+    assert (Hcn : cached_code m a = None).
+    { apply (inv_t1 m I a). unfold fl_ch. rewrite Hn. reflexivity. }
+    assert (Hnew : new_obj m = mkObj (fl_acct m a) None [] [] (cached_code m a) (cached_code m a) (s_gen m)) by (rewrite Hn, Hcn; reflexivity).
     apply Build_got_ok.
     + assert (I2 : Inv (put_obj m a (new_obj m))).
-      { apply Inv_put_obj; [exact I|]. rewrite Hnew. apply ObjOk_fresh. rewrite Hn. intros; discriminate. }
+      { apply Inv_put_obj; [exact I|]. rewrite Hnew. apply ObjOk_fresh. }
       revert I2. apply Inv_frame; reflexivity.
     + change (aget a (s_objs (put_obj m a (new_obj m))) = Some (new_obj m)). rewrite put_obj_objs, N.eqb_refl. reflexivity.
     + reflexivity.
@@ -215,9 +266,14 @@ Proof.
     + intros a'. change (cur_oacct (put_obj m a (new_obj m)) a' = cur_oacct m a').
       rewrite cur_oacct_put_obj. destruct (a' =? a) eqn:E; [| reflexivity].
       apply N.eqb_eq in E. subst. unfold cur_oacct. rewrite Ha. simpl. symmetry. exact Hn.
+    + intros a'. change (cur_code (put_obj m a (new_obj m)) a' = cur_code m a').
+      rewrite cur_code_put_obj. destruct (a' =? a) eqn:E; [| reflexivity].
+      apply N.eqb_eq in E. subst. unfold cur_code, load_code. rewrite Ha, Hl. reflexivity.
     + repeat split.
     + right. repeat split; assumption.
 Qed.
 
 Lemma get_obj_ok m a : Inv m -> got_ok m a (fst (get_obj m a)) (snd (get_obj m a)).
 Proof. intro I. apply got_got_ok; [exact I | apply get_obj_got]. Qed.
+
+End WithEnv.
